@@ -12,6 +12,7 @@ import (
 	"fmt"
 	"os"
 	"reflect"
+	"time"
 
 	"github.com/deckhouse/deckhouse/pkg/log"
 
@@ -20,6 +21,7 @@ import (
 	shell_operator "github.com/flant/shell-operator/pkg/shell-operator"
 	"github.com/flant/shell-operator/pkg/task"
 	"github.com/flant/shell-operator/pkg/task/queue"
+	"github.com/flant/shell-operator/pkg/utils/exponential_backoff"
 )
 
 type Ctx struct {
@@ -148,11 +150,66 @@ func check(c Case, exported bool) (string, string) {
 	return "", ""
 }
 
+type BackoffCase struct {
+	Initial int `json:"initial"`
+	N       int `json:"n"`
+	Lo      int `json:"lo"`
+	Hi      int `json:"hi"`
+}
+
+// backoff samples the real delay computation (it has a random part) against the bounds of spec/Operator/Backoff.tla,
+// both directly and through the back-off function a new queue is wired with.
+func backoff(in, out string) error {
+	f, err := os.Open(in)
+	if err != nil {
+		return err
+	}
+	of, _ := os.Create(out)
+	w := bufio.NewWriter(of)
+	defer func() { w.Flush(); of.Close() }()
+	sc := bufio.NewScanner(f)
+	n := 0
+	for sc.Scan() {
+		var c BackoffCase
+		if err := json.Unmarshal(sc.Bytes(), &c); err != nil {
+			return err
+		}
+		o := Out{Case: n, OK: true}
+		initial := time.Duration(c.Initial) * time.Millisecond
+		queue.DefaultInitialDelayOnFailedTask = initial
+		q := queue.NewTasksQueue()
+		for k := 0; k < 200 && o.OK; k++ {
+			for which, d := range []time.Duration{exponential_backoff.CalculateDelay(initial, c.N), q.ExponentialBackoffFn(c.N)} {
+				ms := int(d / time.Millisecond)
+				if ms < c.Lo {
+					o.OK, o.Sig = false, "C04/backoff-shorter-than-initial-delay"
+					o.Detail = fmt.Sprintf("failure count %d, initial delay %s: delay %s (source %d: 0 = CalculateDelay, 1 = the queue's ExponentialBackoffFn)", c.N, initial, d, which)
+				} else if ms > c.Hi {
+					o.OK, o.Sig = false, "DIV/backoff-above-maximum"
+					o.Detail = fmt.Sprintf("failure count %d, initial delay %s: delay %s", c.N, initial, d)
+				}
+			}
+		}
+		b, _ := json.Marshal(o)
+		w.Write(append(b, '\n'))
+		n++
+	}
+	return nil
+}
+
 func main() {
 	os.Setenv("QUEUE_ACTIONS_METRICS", "no")
 	in := flag.String("in", "", "")
 	out := flag.String("out", "", "")
+	mode := flag.String("mode", "combine", "combine | backoff")
 	flag.Parse()
+	if *mode == "backoff" {
+		if err := backoff(*in, *out); err != nil {
+			fmt.Fprintln(os.Stderr, err)
+			os.Exit(2)
+		}
+		return
+	}
 	f, err := os.Open(*in)
 	if err != nil {
 		fmt.Fprintln(os.Stderr, err)
